@@ -33,7 +33,7 @@ VERIF = bootstrap.VERIF
 # --------------------------------------------------------------------------
 # A. the OpenMP race model
 # --------------------------------------------------------------------------
-OMP_INVS = ["NoDataRace", "NoConflictingIterations", "ReadsFromSequential", "NoUndefinedPrivateRead",
+OMP_INVS = ["ImagesVisited", "NoDataRace", "NoConflictingIterations", "ReadsFromSequential", "NoUndefinedPrivateRead",
             "ResultIndependentOfSchedule", "NoOutOfBounds", "RegionModelled", "TypeOK"]
 
 OMP_CFG = """SPECIFICATION Spec
@@ -49,8 +49,12 @@ CHECK_DEADLOCK FALSE
 def site_tla(m):
     acc = "<<" + ", ".join("<<" + ", ".join("<<%d,%d>>" % e for e in row) + ">>" for row in m["acc"]) + ">>"
     cls = "<<" + ", ".join('"%s"' % c for c in m["cls"]) + ">>"
-    return '[name |-> "%s", acc |-> %s, cls |-> %s, oob |-> %d, parallel |-> %s]' % (
-        m["name"], acc, cls, len(m["oob"]), "TRUE" if m["parallel"] else "FALSE")
+    sc = m["scan"]
+    seq = lambda xs: "<<" + ", ".join(str(int(x)) for x in xs) + ">>"  # noqa: E731
+    scan = '[kind |-> "%s", np |-> %d, ns |-> %d, s2p |-> %s, p2s |-> %s, fcloc |-> %s, iters |-> %s]' % (
+        sc["kind"], sc["np"], sc["ns"], seq(sc["s2p"]), seq(sc["p2s"]), seq(sc["fcloc"]), seq(m["iters"]))
+    return '[name |-> "%s", acc |-> %s, cls |-> %s, oob |-> %d, parallel |-> %s, scan |-> %s]' % (
+        m["name"], acc, cls, len(m["oob"]), "TRUE" if m["parallel"] else "FALSE", scan)
 
 
 def mc_sites(models):
@@ -143,7 +147,7 @@ def check_omp(ctx):
 # --------------------------------------------------------------------------
 RUNS_INVS = ["ImplMatchesReference", "ImplThreadsRepsBitwise", "ImplBuildsAgree", "ImplGuardsIntact",
              "ImplConstInputsUnchanged", "ImplUseOpenmpFlagIrrelevant", "ImplNoException", "ImplNoSanitizerReport", "ImplCoversMatrix",
-             "ImplKernelKnown", "ImplGlue", "ImplAllKernelsCovered"]
+             "ImplKernelKnown", "ImplGlue", "ImplAllKernelsCovered", "ImplIndexMapCoverage"]
 
 RUNS_CFG = """SPECIFICATION Spec
 CONSTANTS
@@ -366,7 +370,7 @@ def check_kernels(ctx, prog):
     ctx.extra["recorded_calls"] = len(calls)
     ctx.extra["configurations"] = notes
     nprng = np.random.default_rng(ctx.seed + 1000)
-    cases = K.select_cases(calls, nprng, per_kernel=7 if quick else 40, per_kernel_random=4 if quick else 24)
+    cases = K.select_cases(calls, nprng, per_kernel=12 if quick else 40, per_kernel_random=12 if quick else 30)
     ctx.extra["cases"] = len(cases)
 
     # ---- glue table against the recorded dtypes / ranks (static, from the AST) ----
@@ -499,7 +503,9 @@ def check_kernels(ctx, prog):
     ctx.extra["observed_max_relerr"] = {k: float("%.3g" % v) for k, v in observed_err.items()}
     gl = []
     for g in groups.values():
-        gl.append(dict(kernel=g["kernel"], case=g["case"], variant=g["variant"], runs=set_of(g["runs"])))
+        facts = K.index_map_facts(cases[g["case"]])
+        gl.append(dict(kernel=g["kernel"], case=g["case"], variant=g["variant"], indexmaps=facts["indexmaps"],
+                       noncontig=facts["noncontig"], p2sprefix=facts["p2sprefix"], runs=set_of(g["runs"])))
     ctx.sample(dict(kernel=gl[0]["kernel"], case=gl[0]["case"], runs=len(gl[0]["runs"]))) if gl else None
 
     # ---- code -> spec: TLC judges every group ----
@@ -510,6 +516,11 @@ def check_kernels(ctx, prog):
     ctx.extra["groups_checked"] = len(gl)
     seen = set()
     for name, st in initial_state_violations(res.stdout):
+        if name in ("ImplAllKernelsCovered", "ImplIndexMapCoverage"):
+            # the inputs do not span what the property quantifies over: the run proves nothing
+            raise tlcmod.MachineryError("C13 case generator: coverage requirement %s of KernelRuns.tla not met "
+                                        "(kernel without a case, or an index-map kernel without a case with "
+                                        "non-contiguous images / non-prefix p2s_map)" % name)
         grp = st.get("grp") or {}
         kern = grp.get("kernel", "?") if isinstance(grp, dict) else "?"
         key = "kernels:%s:%s" % (name, kern)
